@@ -65,6 +65,12 @@ def run_scenarios(ctx, scenarios, check_op, code_names, known_codes=None, kind_o
         nev += len(tr)
         if not comp or not mcomp:
             ctx.dist["incomplete-scenario"] += 1
+            ctx.dist["incomplete-" + ("both" if not comp and not mcomp else "implementation-only" if not comp else "model-only")] += 1
+            if comp != mcomp:
+                # one side ran out of its iteration budget while the other became idle: their behaviours differ
+                ctx.mismatch(f"{what}: " + ("the implementation did not become idle within the iteration budget while the model completed"
+                                            if mcomp else "the model ran out of fuel while the implementation completed"),
+                             dict(scenario=describe(sc), implementation_trace_events=len(tr), model_trace_events=len(mtr)))
             continue
         a, b = sim.norm(tr), sim.norm(mtr)
         codes = sexp.loads(v) if v.startswith("(") else [98]
